@@ -129,7 +129,7 @@ MANIFEST = {
             "real call_pubsub_cb/evt_dtor in the per-class delivery jobs (one and two arrivals); real "
             "m_mod_set_batch_size/m_mod_set_batch_timeout/pause/resume scripts against a model of the configured settings; "
             "real stop()/reset_module()/start() discard pending events and reset the settings; descriptor sources registered "
-            "through m_mod_src_register_fd are delivered at once under every batch setting",
+            "through m_mod_src_register_fd are delivered at once under every batch setting; whole core: a topic subscribed again with another priority is classified as last requested; fixed pause/resume scripts",
     "note": "m_ctx(), clock, timer registry, poll layer and (in the fully symbolic decision jobs) call_pubsub_cb are stubs "
             "listed in the evidence; number of pending events bounded by KMAX and at most two arrivals per run; timer "
             "expiry is represented by the tick event the loop builds, kernel timing is outside the claim",
